@@ -287,7 +287,9 @@ func runC18(c *Ctx) {
 	}
 	ruleSizeGuard(c, "mapset")
 	ruleSetArgFlow(c)
+	ruleEmptyAgreesLen(c, "mapset", "Set")
 	ruleNilWriteback(c)
+	ruleNilBranchStores(c)
 	// IsEmpty is Len() == 0 (a non-nil set without members is empty); HasAny answers true only after a member was found
 	c.rule("R-PREDICATE-WITNESS", 2, "IsEmpty tests the length; HasAny's only non-false answer is a constant true after a successful membership test")
 	if ie := P.Func("mapset", "Set", "IsEmpty"); ie != nil {
